@@ -1,2 +1,142 @@
+"""HTTP/2 part of C02: every segmentation (incl. cuts inside the 9-byte frame header) and every
+truncation point of frame scripts: HEADERS(+CONTINUATION) / DATA x k / END_STREAM on DATA, on
+HEADERS, or on trailers; padded frames; PING / WINDOW_UPDATE interleaved."""
+from __future__ import annotations
+
+import hpack
+import httpcore
+
+from ..engine import Execution, Violation, make_spec
+from ..seqworld import SeqWorld, exc_class
+from ..simnet.h2peer import frame, settings_payload, DATA, HEADERS, SETTINGS, PING, WINDOW_UPDATE, CONTINUATION
+from .c15 import RawH2Server
+
+MOD = "mc.props.c02_h2"
+HDRS = [(b":status", b"200"), (b"x-a", b"1"), (b"x-a", b"2"), (b"set-cookie", b"k=v")]
+
+
+def scripts():
+    out = {}
+    pre = [frame(SETTINGS, 0, 0, settings_payload({3: 100})), frame(SETTINGS, 1, 0)]
+
+    def enc(h):
+        return hpack.Encoder().encode(h)
+    b = enc(HDRS)
+    out["simple"] = (pre + [frame(HEADERS, 0x4, 1, b), frame(DATA, 0x1, 1, b"abc")], 200, HDRS[1:], b"abc")
+    out["continuation-3data"] = (pre + [frame(HEADERS, 0x0, 1, b[:5]), frame(CONTINUATION, 0x4, 1, b[5:]), frame(DATA, 0, 1, b"a"), frame(DATA, 0, 1, b"bc"),
+                                        frame(DATA, 0x1, 1, b"defgh")], 200, HDRS[1:], b"abcdefgh")
+    b204 = enc([(b":status", b"204"), (b"x-b", b"")])
+    out["end-on-headers"] = (pre + [frame(HEADERS, 0x5, 1, b204)], 204, [(b"x-b", b"")], b"")
+    tr = enc([(b"x-trailer", b"t")])
+    out["trailers"] = (pre + [frame(HEADERS, 0x4, 1, b), frame(DATA, 0, 1, b"abc"), frame(HEADERS, 0x5, 1, tr)], 200, HDRS[1:], b"abc")
+    out["padded-empty-end"] = (pre + [frame(HEADERS, 0x4, 1, b), frame(DATA, 0x8, 1, b"\x02" + b"ab" + b"\x00\x00"), frame(DATA, 0x1, 1, b"")], 200, HDRS[1:], b"ab")
+    out["interleaved-control"] = (pre + [frame(PING, 0, 0, b"\x00" * 8), frame(HEADERS, 0x4, 1, b), frame(WINDOW_UPDATE, 0, 0, b"\x00\x00\x00\x05"),
+                                         frame(DATA, 0, 1, b"ab"), frame(PING, 0x1, 0, b"\x01" * 8), frame(DATA, 0x1, 1, b"c")], 200, HDRS[1:], b"abc")
+    return out
+
+
+class Seg2Harness:
+    horizon = 8000
+
+    def __init__(self, script, variant, consume, seg_cost=0):
+        self.name = script
+        frames, self.status, self.headers, self.body = scripts()[script]
+        self.data = b"".join(frames)
+        self.variant = variant
+        self.consume = consume
+        self.seg_cost = seg_cost
+
+    def run(self, chooser) -> Execution:
+        srv = RawH2Server(self.data)
+        srv.close_after = False
+        collected: list = []
+        w = SeqWorld(chooser, lambda k, h, p: srv.new_conn(), variant=self.variant, merge_roots=[collected], segment=True, eof_anywhere=True,
+                     faults=0, seg_cost=self.seg_cost)
+        cls = httpcore.ConnectionPool if self.variant == "sync" else httpcore.AsyncConnectionPool
+        pool = cls(network_backend=w.backend, http1=False, http2=True)
+        w.roots.append(pool)
+        url = "http://a.example/t/x"
+        got = {}
+        if self.variant == "sync":
+            def prog():
+                if self.consume == "request":
+                    r = pool.request("GET", url)
+                    got.update(status=r.status, headers=r.headers, body=r.content)
+                else:
+                    with pool.stream("GET", url) as r:
+                        got.update(status=r.status, headers=r.headers)
+                        for chunk in r.iter_stream():
+                            collected.append(chunk)
+                    got["body"] = b"".join(collected)
+            res = w.run(sync_fn=prog)
+        else:
+            async def aprog():
+                if self.consume == "request":
+                    r = await pool.request("GET", url)
+                    got.update(status=r.status, headers=r.headers, body=r.content)
+                else:
+                    async with pool.stream("GET", url) as r:
+                        got.update(status=r.status, headers=r.headers)
+                        async for chunk in r.aiter_stream():
+                            collected.append(chunk)
+                    got["body"] = b"".join(collected)
+            res = w.run(async_fn=aprog)
+        ex = Execution()
+        ex.notes["unmergeable"] = sorted(w.unmergeable)
+        died = [i for i in w.env.injected if i[1] == "die"]
+        delivered = sum(len(op.result) for op in w.net.ledger if op.kind == "read" and isinstance(op.result, bytes))
+        nreads = sum(1 for op in w.net.ledger if op.kind == "read")
+        ex.nontrivial = nreads > 1 or bool(died)
+        ex.trace = [op.rec() for op in w.net.ledger if op.kind in ("read", "close")]
+        sig = {"harness": "seg2", "script": self.name, "variant": self.variant, "consume": self.consume}
+
+        def viol(kind, msg):
+            ex.violations.append(Violation("C02." + kind, f"{msg} | h2 script={self.name} delivered={delivered}/{len(self.data)} reads={nreads} died={bool(died)} variant={self.variant}", dict(sig, kind=kind)))
+        st = res[0]
+        if st == "hang":
+            viol("read-past-end", "client kept reading after the complete response (peer still open)")
+            ex.outcome = "hang"
+            return ex
+        if st in ("deadlock", "livelock"):
+            viol(st, "caller did not terminate")
+            ex.outcome = st
+            return ex
+        if st == "ok":
+            if died and delivered < len(self.data) and not self._complete_at(delivered):
+                viol("silent-truncation", f"peer died after {delivered} bytes but the call returned normally: {got.get('status')} {got.get('body')!r}")
+                ex.outcome = "ok-after-truncation"
+                return ex
+            if got.get("status") != self.status:
+                viol("status", f"status {got.get('status')}")
+            if [tuple(h) for h in got.get("headers", [])] != list(self.headers):
+                viol("headers", f"headers {got.get('headers')} expected {self.headers}")
+            if got.get("body") != self.body:
+                viol("body", f"body {got.get('body')!r} expected {self.body!r}")
+            ex.outcome = f"ok:trunc={bool(died)}"
+            return ex
+        e = res[1]
+        if not died:
+            viol("spurious-error", f"well-formed frames fully delivered in {nreads} reads raised {exc_class(e)}: {e}")
+        ex.outcome = f"exc:{exc_class(e)}:trunc={bool(died)}"
+        return ex
+
+    def _complete_at(self, delivered):
+        """The response is complete once the frame carrying END_STREAM has been delivered (trailing control frames do not matter)."""
+        frames = scripts()[self.name][0]
+        off = 0
+        for f in frames:
+            off += len(f)
+            if f[3] in (DATA, HEADERS) and f[4] & 0x1 and int.from_bytes(f[5:9], "big") == 1:
+                return delivered >= off
+        return False
+
+
 def specs(tier):
-    return []
+    out = []
+    for name in scripts():
+        for variant in ("sync", "async"):
+            for consume in ("request", "stream"):
+                if tier == "quick" and (variant, consume) in (("sync", "stream"), ("async", "request")) and name not in ("simple", "trailers"):
+                    continue
+                out.append(make_spec(MOD, "Seg2Harness", script=name, variant=variant, consume=consume))
+    return out
